@@ -281,11 +281,24 @@ class HeaderStream(cstream.Stream):
             self.targets.add(rblk.target)
             self.c["distinct_targets_accepted"] += 1
 
-    def run_world(self, rng, classes, nblocks, ncand, params=None, dt_choices=None):
+    def run_world(self, rng, classes, nblocks, ncand, params=None, dt_choices=None, restarted=False):
         self.rejected_pool = []
         world = gen.World(rng, params=params)
         world.dt_choices = dt_choices
+        if restarted:
+            world.reuse_pending = False
         self.grow(world, nblocks, rng)
+        if restarted:
+            # the node was restarted: candidates are judged (and the node's own blocks assembled) on the chain state rebuilt
+            # from a block store the code under test created and filled
+            from skv import nodekit
+            rebuilt = nodekit.rebuild_through_store(world, rng, "c05")
+            if rebuilt is not None and rebuilt.current_chain_hash == world.cs.current_chain_hash \
+                    and set(rebuilt.block_by_hash.keys()) == set(world.cs.block_by_hash.keys()):
+                world.cs = rebuilt
+                self.c["worlds_on_a_state_rebuilt_from_the_store"] = self.c.get("worlds_on_a_state_rebuilt_from_the_store", 0) + 1
+            else:
+                self.c["worlds_not_rebuilt"] = self.c.get("worlds_not_rebuilt", 0) + 1
         names = sorted(classes)
         for k in range(ncand):
             cls = names[(k + rng.randrange(3)) % len(names)]
@@ -532,6 +545,8 @@ def run_shard(spec):
         for _ in range(4 if quick else 40):
             world = st.run_world(rng, HEADER_CLASSES, nblocks=rng.choice([8, 14, 20]), ncand=45 if quick else 60)
             st.two_thread_lane(world, rng, 2 if quick else 4)
+        for _ in range(1 if quick else 10):
+            st.run_world(rng, HEADER_CLASSES, nblocks=rng.choice([20, 30]), ncand=30 if quick else 50, restarted=True)
         for _ in range(1 if quick else 8):        # every candidate the first block above the checkpoint horizon
             cstream.Stream.run_world(st, rng, HEADER_CLASSES, nblocks=rng.choice([6, 10]), ncand=20 if quick else 40,
                                      bad_key_prob=0.0, horizon_at_head=True)
